@@ -178,6 +178,10 @@ func main() {
 		verdicts = append(verdicts, v)
 	}
 	ctx := cuecontext.New()
+	gf, _ := os.Create("/tmp/probe10/cases2.jsonl")
+	gw := bufio.NewWriter(gf)
+	var genIdx []int
+	genFail := 0
 	extractFail, compileFail, mism, total, valid := 0, 0, 0, 0, 0
 	classes := map[string]int{}
 	for i, c := range cases {
@@ -202,6 +206,22 @@ func main() {
 			compileFail++
 			fmt.Printf("COMPILE-FAIL schema=%s\n  cue=%s\n  err=%v\n", sb, b, sv.Err())
 			continue
+		}
+		// reverse direction
+		if gexpr, gerr := jsonschema.Generate(sv, nil); gerr != nil {
+			genFail++
+		} else {
+			gv := ctx.BuildExpr(gexpr)
+			if gb, merr := gv.MarshalJSON(); merr == nil {
+				var sch any
+				json.Unmarshal(gb, &sch)
+				line, _ := json.Marshal(cs{Schema: sch, Insts: c.Insts})
+				gw.Write(line)
+				gw.WriteByte('\n')
+				genIdx = append(genIdx, i)
+			} else {
+				genFail++
+			}
 		}
 		for j, inst := range c.Insts {
 			ib, _ := json.Marshal(inst)
@@ -232,5 +252,32 @@ func main() {
 			}
 		}
 	}
+	gw.Flush()
+	gf.Close()
+	out2, err := exec.Command("python3-vt", "/tmp/probe10/oracle.py", "/tmp/probe10/cases2.jsonl").Output()
+	if err != nil {
+		fmt.Println("oracle2 error", err)
+	}
+	rm, rt := 0, 0
+	for k, line := range strings.Split(strings.TrimSpace(string(out2)), "\n") {
+		var v []*bool
+		json.Unmarshal([]byte(line), &v)
+		i := genIdx[k]
+		for j := range v {
+			if v[j] == nil {
+				continue
+			}
+			rt++
+			if *v[j] != verdicts[i][j] {
+				rm++
+				if rm <= 6 {
+					sb, _ := json.Marshal(cases[i].Schema)
+					ib, _ := json.Marshal(cases[i].Insts[j])
+					fmt.Printf("REVERSE-MISMATCH orig-oracle=%v generated-schema-oracle=%v\n  schema=%s\n  inst=%s\n", verdicts[i][j], *v[j], sb, ib)
+				}
+			}
+		}
+	}
+	fmt.Println("reverse: generated", len(genIdx), "genFail", genFail, "verdicts", rt, "mismatch-vs-original-oracle", rm)
 	fmt.Println("schemas", N, "extractFail", extractFail, "compileFail", compileFail, "verdicts", total, "valid", valid, "mismatches", mism, classes)
 }
